@@ -135,6 +135,8 @@ def check_size_bounds(actual):
 
 def _more_known(d):
     k, mv, av = d
+    if mv is None:
+        return av is not None
     if k.endswith(".has"):
         return mv == "U" and av in ("0", "1")
     if k == "ok" or k.endswith(".ok"):
@@ -142,45 +144,39 @@ def _more_known(d):
     return mv is None and av is not None
 
 
-def reconcile(module, struct_name, params, data, diffs, rng, k=8):
+def reconcile(module, struct_name, params, data, diffs, rng, k=8, actual=None):
     """The implementation may report as known what the strict three-valued
     reference calls unknown, when the value does not depend on the unreadable
-    leaves (refsem.Completion).  Such a difference is dropped iff the reported
-    value equals the reference value under every one of `k` random completions
-    (and at least one completion decides it); a report that some completion
-    contradicts stays a difference.  Returns (remaining diffs, excused)."""
+    leaves (refsem.Completion).  A difference of that kind (presence known
+    instead of unknown, Ok instead of not Ok, a key the strict record does not
+    have - e.g. the whole subtree of a field whose presence the compiler
+    folded to true) is dropped iff the ordinary comparison of the
+    implementation's record with the reference record under each of `k`
+    random completions finds no difference for that key (UNSPEC is skipped
+    there exactly as in the strict comparison).  A report that some
+    completion contradicts stays a difference.  Returns (remaining, excused)."""
     import random
     cands = [d for d in diffs if _more_known(d)]
-    if not cands:
+    if not cands or actual is None:
         return diffs, 0
-    comps = []
+    contradicted = set()
+    ncomp = 0
     for _ in range(k):
         refsem.COMPLETION = refsem.Completion(random.Random(rng.getrandbits(64)))
         try:
-            comps.append(observe(module, struct_name, params, bytearray(data)))
+            c = observe(module, struct_name, params, bytearray(data))
         except (RecursionError, KeyError, ValueError, TypeError, ZeroDivisionError):
-            pass
+            continue
         finally:
             refsem.COMPLETION = None
+        ncomp += 1
+        for key, _e, _g in compare(c, actual):
+            contradicted.add(key)
+    if not ncomp:
+        return diffs, 0
     keep, excused = [], 0
     for d in diffs:
-        if d not in cands:
-            keep.append(d)
-            continue
-        key, _mv, av = d
-        decided = agree = 0
-        for c in comps:
-            tainted = [t[7:] for t in c if t.startswith("~taint~")] + [t[:-1] for t in c if t.endswith(".*")]
-            if any(key.startswith(t) for t in tainted):
-                continue
-            cv = c.get(key)
-            if cv is None or cv == "UNSPEC":
-                continue
-            if cv.startswith("OPT:"):
-                cv = cv[4:]
-            decided += 1
-            agree += cv == av
-        if decided and agree == decided:
+        if d in cands and d[0] not in contradicted:
             excused += 1
         else:
             keep.append(d)
